@@ -44,17 +44,21 @@ class Model(SOCModel):
             for item in constr:
                 self.st(item)
         elif isinstance(constr, ExpConstr):
+            if constr.model is not self:
+                raise ValueError('Constraints are not defined for this model.')
             self.exp_constr.append(constr)
         elif isinstance(constr, CvxConstr):
+            if constr.xtype in 'XLPFNOD' and constr.model is not self:
+                raise ValueError('Constraints are not defined for this model.')
             if constr.xtype in 'XLPFN':
                 self.other_constr.append(constr)
             elif constr.xtype in 'OD':
                 self.det_constr.append(constr)
             else:
                 super().st(constr)
-        elif isinstance(constr, KLConstr):
-            self.other_constr.append(constr)
-        elif isinstance(constr, LMIConstr):
+        elif isinstance(constr, (KLConstr, LMIConstr)):
+            if constr.model is not self:
+                raise ValueError('Constraints are not defined for this model.')
             self.other_constr.append(constr)
         else:
             super().st(constr)
